@@ -25,6 +25,18 @@ CHECKS = {
    note="Trusts ref.json_value; x86-64 printf width classes only.", ref="2/C16"),
 }
 
+CHECKS.update({
+ "C05": dict(technique="reference-model monitor over schema-evolution chains (older generated decoders on newer buffers; Python trace monitor, C guard pages + ASan)",
+   text="Chains of 2-3 schema versions built from the two permitted extension steps at any depth; values of the newest version encoded by the reference and the newest generated encoders are decoded by every older version's generated Python module and (sample) C driver on exact-fit buffers; oracle = projection of the value onto the older schema.",
+   note="Trusts ref.project/encode; Go runtime cannot be executed here (same formula by reading only).", ref="2/C05"),
+ "C06": dict(technique="big-endian emulation (BP_BIG_ENDIAN runtime on big-endian-laid storage) with positive control + valgrind-lackey access-width traces + -O big-endian branch differential",
+   text="No big-endian CPU exists here: the -DBP_BIG_ENDIAN runtime runs on storage the driver lays out big-endian over the whole width x offset grid and traditional schemas; lackey traces show wire accesses are single bytes and -O big-endian struct accesses are whole fields (little-endian builds are the failing control); the -O big-endian branch is compared with the little-endian one and the reference.",
+   note="x86-64 only; sign extension of odd widths and extensible prefixes are not judged under the emulation; access widths observed at -O0.", ref="2/C06"),
+ "C14": dict(technique="enumeration of the finite probe space through Python runtime (trace monitor), C runtime (LE/BE, -O0/-O2/-O3, ASan, guard pages), -O code; BpCopyBufferBits vs bit-list model",
+   text="The finite space {bool, byte, uint1..64, int1..64} x offsets 0..7 x {scalar, array element incl. batch path, alias, alias of array} x basis values is run through every executable runtime; the thorough tier enumerates it completely (cells_observed == cells_in_space is reported), quick uses a reduced basis.",
+   note="Go -O statements are evaluated, not run; BE decode of signed odd widths not judged (emulation limit).", ref="2/C14"),
+})
+
 NOT_YET = {}
 
 def main():
